@@ -140,7 +140,14 @@ def rule_phases(ctx: Ctx) -> None:
             wait_i = next((i for i, s in enumerate(before) if any(
                 isinstance(x, ast.Await) and isinstance(x.value, ast.Call)
                 and (A.call_name(x.value) or "").endswith("_handlers_task_pool.wait") for x in ast.walk(s))), None)
-            ctx.check(cancel_i is not None and wait_i is not None and cancel_i < wait_i, "C14.1",
+            # ... and the cancellation is not conditional: on every path into the wait the pool was told to cancel
+            uncond = False
+            if cancel_i is not None and wait_i is not None:
+                cnodes = [n_ for x in A.calls(before[cancel_i], shallow=False) if (A.call_name(x) or "").endswith("_handlers_task_pool.cancel") for n_ in g.nodes_for(x)]
+                wnodes = [n_ for x in ast.walk(before[wait_i]) if isinstance(x, ast.Call) and (A.call_name(x) or "").endswith("_handlers_task_pool.wait") for n_ in g.nodes_for(x)]
+                uncond = bool(cnodes) and bool(wnodes) and all(
+                    g.path_avoiding(g.entry, lambda n, w=w: n is w, lambda n: n in cnodes) is None for w in wnodes)
+            ctx.check(cancel_i is not None and wait_i is not None and cancel_i < wait_i and uncond, "C14.1",
                       "in-flight handlers are cancelled, then awaited, before producers are finalised", run, c,
                       "pool.cancel(); await pool.wait(); finalize", "handlers still in flight are awaited without "
                       "being cancelled (run does not end promptly) or are not reaped before finalize")
